@@ -31,17 +31,34 @@ def rawOutput (beh : Beh) (timeout : Nat) : String × Option String × Bool :=
       else (out, some "exec: WaitDelay expired before I/O complete", decide (timeout ≤ cmdWaitDelayMs))
     | .forever => (out, some "exec: WaitDelay expired before I/O complete", decide (timeout ≤ cmdWaitDelayMs))
 
-/-- the operations of `SafeCmdExecution`; the state records whether `cmd.Output()` was reached (`attempted`) -/
-def execOps (perm : PermOut) (beh : Beh) (timeout : Nat) : Generated3.ExecOps Bool where
-  checkPerm := fun _ s =>
+/-- what a call of `SafeCmdExecution` leaves behind: whether `cmd.Output()` was reached (`attempted`), the path the
+    permission test was made on, and the path handed to `exec.CommandContext` -/
+structure ExecSt where
+  attempted : Bool := false
+  checked : Option String := none
+  started : Option String := none
+  deriving DecidableEq, Repr
+
+/-- the operations of `SafeCmdExecution`. `baseOf` is `filepath.Base`, `look` is `exec.LookPath` (`none` = not found in
+    `$PATH`); the permission test's verdict `perm` is that of the file the test is made on. -/
+def execOps (baseOf : String → String) (look : String → Option String) (perm : PermOut) (beh : Beh) (timeout : Nat) :
+    Generated3.ExecOps ExecSt where
+  base := fun p s => (.ok (baseOf p), s)
+  lookPath := fun p s => (.ok (match look p with | some r => (r, none) | none => ("", some "not found")), s)
+  commandContext := fun p s => (.ok (), { s with started := some p })
+  checkPerm := fun p s =>
     (match perm with
      | .ok (.ok ()) => .ok (true, none)
      | .ok (.error e) => .ok (false, some e)
      | .err e => .err e
-     | .panic p => .panic p, s)
-  cmdOutput := fun _ => (.ok ((rawOutput beh timeout).1, (rawOutput beh timeout).2.1), true)
+     | .panic p => .panic p, { s with checked := some p })
+  cmdOutput := fun s => (.ok ((rawOutput beh timeout).1, (rawOutput beh timeout).2.1), { s with attempted := true })
   ctxErr := fun s => (.ok (if (rawOutput beh timeout).2.2 then some "context deadline exceeded" else none), s)
   stringsTrim := fun str cut s => (if cut = "\n" then .ok (trimNl str) else .panic "trim-cutset", s)
+
+/-- the path the call works with: a bare command name is replaced by what `$PATH` yields, when it yields something -/
+def execPath (baseOf : String → String) (look : String → Option String) (exe : String) : String :=
+  if baseOf exe = exe then (match look exe with | some r => r | none => exe) else exe
 
 /-- Go's `(string, error)` for the model's outcome of a call that got past the permission test -/
 def execPair : Except String String → String × Option String
@@ -55,30 +72,51 @@ def execResGo : Res (Except String String) → Res (String × Option String)
 
 
 
+variable (baseOf : String → String) (look : String → Option String)
+
 theorem trans3_util_SafeCmdExecution_checked (indef : Int) (beh : Beh) (timeout : Nat) (exe : String) (args : Array String) (t : Int) :
-    Generated3.util_SafeCmdExecution indef (execOps (.ok (.ok ())) beh timeout) exe args t false
-      = (execResGo (runCmd beh timeout).res, true) := by
-  by_cases ht : timeout = 0
-  · simp [Generated3.util_SafeCmdExecution, execOps, runCmd, rawOutput, ht, execResGo, execPair, bind, GoM.bind', GoM.pure', pure]
-  · cases beh with
-    | startError => simp [Generated3.util_SafeCmdExecution, execOps, runCmd, rawOutput, ht, execResGo, execPair, bind, GoM.bind', GoM.pure', pure]
-    | exits code out =>
-      by_cases hc : code = 0 <;>
-        simp [Generated3.util_SafeCmdExecution, execOps, runCmd, rawOutput, ht, hc, execResGo, execPair, bind, GoM.bind', GoM.pure', pure]
-    | killedBySignal out => simp [Generated3.util_SafeCmdExecution, execOps, runCmd, rawOutput, ht, execResGo, execPair, bind, GoM.bind', GoM.pure', pure]
-    | outlivesDeadline o => simp [Generated3.util_SafeCmdExecution, execOps, runCmd, rawOutput, ht, execResGo, execPair, bind, GoM.bind', GoM.pure', pure]
-    | grandchildHoldsStdout out hold =>
-      cases hold with
-      | forever =>
-        by_cases h1 : timeout ≤ cmdWaitDelayMs <;>
-        simp [Generated3.util_SafeCmdExecution, execOps, runCmd, rawOutput, ht, h1, execResGo, execPair, bind, GoM.bind', GoM.pure', pure]
-      | ms h =>
-        by_cases h1 : timeout ≤ cmdWaitDelayMs <;> by_cases h2 : h < cmdWaitDelayMs <;> by_cases h3 : h < timeout <;>
-        simp [Generated3.util_SafeCmdExecution, execOps, runCmd, rawOutput, ht, h1, h2, h3, execResGo, execPair, bind, GoM.bind', GoM.pure', pure] <;> omega
+    Generated3.util_SafeCmdExecution indef (execOps baseOf look (.ok (.ok ())) beh timeout) exe args t {}
+      = (execResGo (runCmd beh timeout).res,
+         { attempted := true, checked := some (execPath baseOf look exe), started := some (execPath baseOf look exe) }) := by
+  by_cases hb : baseOf exe = exe <;> cases hl : look exe <;> by_cases ht : timeout = 0 <;>
+    first
+    | (simp [Generated3.util_SafeCmdExecution, execOps, execPath, runCmd, rawOutput, execResGo, execPair, bind, GoM.bind', GoM.pure', pure, hb, hl, ht]; done)
+    | (cases beh with
+       | startError => simp [Generated3.util_SafeCmdExecution, execOps, execPath, runCmd, rawOutput, execResGo, execPair, bind, GoM.bind', GoM.pure', pure, hb, hl, ht]
+       | exits code out => by_cases hc : code = 0 <;> simp [Generated3.util_SafeCmdExecution, execOps, execPath, runCmd, rawOutput, execResGo, execPair, bind, GoM.bind', GoM.pure', pure, hb, hl, ht, hc]
+       | killedBySignal out => simp [Generated3.util_SafeCmdExecution, execOps, execPath, runCmd, rawOutput, execResGo, execPair, bind, GoM.bind', GoM.pure', pure, hb, hl, ht]
+       | outlivesDeadline o => simp [Generated3.util_SafeCmdExecution, execOps, execPath, runCmd, rawOutput, execResGo, execPair, bind, GoM.bind', GoM.pure', pure, hb, hl, ht]
+       | grandchildHoldsStdout out hold =>
+         cases hold with
+         | forever => by_cases h1 : timeout ≤ cmdWaitDelayMs <;> simp [Generated3.util_SafeCmdExecution, execOps, execPath, runCmd, rawOutput, execResGo, execPair, bind, GoM.bind', GoM.pure', pure, hb, hl, ht, h1]
+         | ms h =>
+           by_cases h1 : timeout ≤ cmdWaitDelayMs <;> by_cases h2 : h < cmdWaitDelayMs <;> by_cases h3 : h < timeout <;>
+             simp [Generated3.util_SafeCmdExecution, execOps, execPath, runCmd, rawOutput, execResGo, execPair, bind, GoM.bind', GoM.pure', pure, hb, hl, ht, h1, h2, h3] <;> omega)
 
 theorem trans3_util_SafeCmdExecution_refused (indef : Int) (e : String) (beh : Beh) (timeout : Nat) (exe : String) (args : Array String) (t : Int) :
-    Generated3.util_SafeCmdExecution indef (execOps (.ok (.error e)) beh timeout) exe args t false
-      = (.ok ("", some "cannot execute"), false) := by
-  simp [Generated3.util_SafeCmdExecution, execOps, bind, GoM.bind', GoM.pure', pure]
+    Generated3.util_SafeCmdExecution indef (execOps baseOf look (.ok (.error e)) beh timeout) exe args t {}
+      = (.ok ("", some "cannot execute"), { attempted := false, checked := some (execPath baseOf look exe), started := none }) := by
+  by_cases hb : baseOf exe = exe <;> cases hl : look exe <;>
+    simp [Generated3.util_SafeCmdExecution, execOps, execPath, bind, GoM.bind', GoM.pure', pure, hb, hl]
+
+/-- whatever the verdict: the file handed to `exec.CommandContext`, if any, is the file the permission test was made on -/
+theorem trans3_exec_starts_what_it_checked (indef : Int) (perm : PermOut) (beh : Beh) (timeout : Nat) (exe : String) (args : Array String) (t : Int) :
+    let s := (Generated3.util_SafeCmdExecution indef (execOps baseOf look perm beh timeout) exe args t {}).2
+    s.started = none ∨ s.started = s.checked := by
+  match perm with
+  | .ok (.ok ()) =>
+    rw [trans3_util_SafeCmdExecution_checked]; simp
+  | .ok (.error e) =>
+    rw [trans3_util_SafeCmdExecution_refused]; simp
+  | .err e =>
+    by_cases hb : baseOf exe = exe <;> cases hl : look exe <;>
+      simp [Generated3.util_SafeCmdExecution, execOps, bind, GoM.bind', GoM.pure', pure, hb, hl]
+  | .panic e =>
+    by_cases hb : baseOf exe = exe <;> cases hl : look exe <;>
+      simp [Generated3.util_SafeCmdExecution, execOps, bind, GoM.bind', GoM.pure', pure, hb, hl]
 
 end Fan2go
+
+#print axioms Fan2go.trans3_util_SafeCmdExecution_checked
+#print axioms Fan2go.trans3_util_SafeCmdExecution_refused
+#print axioms Fan2go.trans3_exec_starts_what_it_checked
